@@ -1509,8 +1509,12 @@ class LuaFormatterWriter(LuaASTEchoWriter):
         spaces = re.sub(br'\n\n+', b'\n\n', spaces)
 
         # Remove excess trailing whitespace at end of file.
+        # (Trailing spaces on a last line that has no newline stay without
+        # one: the output must not depend on trailing spaces in the input.)
         if self._pos == len(self._tokens):
-            spaces = re.sub(br'[ \n]+$', b'\n', spaces)
+            spaces = re.sub(
+                br'[ \n]+$',
+                lambda m: b'\n' if b'\n' in m.group(0) else b'', spaces)
 
         # TODO: same-line spacing patterns:
         # - one space before and after binop
